@@ -202,12 +202,20 @@ func runBlock(r *simk.Run, f focus) *simk.Violation {
 			if nAct > 17 {
 				nAct = 17
 			}
+			if c.Bool(f.txFaults * 0.06) {
+				// far beyond the limit (counts that would wrap a narrow integer)
+				nAct = []int{255, 256, 257, 272, 512}[c.Intn(5)] + c.Intn(2)*int(rules.MaxActionsPerTx)
+				g.Note += fmt.Sprintf("%d-actions ", nAct)
+			}
 			var acts []chain.Action
 			for a := 0; a < nAct; a++ {
 				nonce++
 				sa := &SimAction{Compute: uint64(c.Intn(4)), Start: -1, End: -1, Nonce: nonce}
 				need := map[string]state.Permissions{}
 				nOps := c.Intn(5)
+				if nAct > 17 {
+					nOps = 0
+				}
 				for o := 0; o < nOps; o++ {
 					k := keysU[c.Intn(nKeys)]
 					switch c.Weighted(4, 4, 2, 0) {
@@ -265,7 +273,7 @@ func runBlock(r *simk.Run, f focus) *simk.Violation {
 				if c.Bool(0.2) {
 					sa.Decl = append(sa.Decl, SimDecl{Key: keysU[c.Intn(nKeys)], Perm: []state.Permissions{state.Read, state.All, state.None}[c.Intn(3)]})
 				}
-				if c.Bool(f.txFaults * 0.2) {
+				if nAct <= 17 && c.Bool(f.txFaults*0.2) {
 					switch c.Intn(3) {
 					case 0:
 						sa.Start = blkTS + 1
